@@ -66,7 +66,7 @@ def local_scale(wcs, x, y):
 
 class Image(Relation):
     name = 'C07.image'
-    examples = {'quick': 200, 'thorough': 3000}
+    examples = {'quick': 500, 'thorough': 4000}
     shards = {'quick': 8, 'thorough': 16}
 
     def strategy(self, tier):
